@@ -123,7 +123,7 @@ MT_LABELS = ["context_switch_inside_iv_event_post", "context_switch_at_owner_loc
              "worker_died_of_idle_timeout", "iv_thread_child", "iv_thread_exit_without_deinit", "iv_thread_pthread_exit", "method_epoll_timerfd",
              "method_epoll", "method_ppoll", "method_poll", "raw_event_kick_transport", "eventfd_fallback_transport", "fd_unregistered_in_event_handler",
              "pool_struct_reuse", "submit_from_completion", "virtual_time_passed_10s", "post_burst", "raw_cross_thread_post", "raw_big_burst",
-             "null_pool_work", "put_from_completion", "iv_thread_create_fails", "pool_worker_create_fails", "first_event_register_emfile", "work_item_struct_resubmitted_from_its_completion", "owner_busy_with_self_reregistering_task", "owner_stalls_in_handler"]
+             "null_pool_work", "put_from_completion", "iv_thread_create_fails", "pool_worker_create_fails", "first_event_register_emfile", "work_item_struct_resubmitted_from_its_completion", "owner_busy_with_self_reregistering_task", "owner_stalls_in_handler", "post_local_event_then_unregister_other_pending_one"]
 _MT_NOTE = ("trusted: the baton scheduler (harness/vsched.c: preemption only at interposed lock / kick / descriptor-I/O / wait / thread create-join points), "
             "the virtual kernel, the harness' history bookkeeping in harness/t_mt.c, ASan/UBSan. Races between two plain memory accesses are out of reach "
             "here (C14's TSan runs look for those). Exploration of generated schedules, not an exhaustive interleaving search.")
